@@ -562,6 +562,38 @@ func (e *Exec) stub(fn *ssa.Function, full string, args []Value) (Value, bool) {
 		return &IfaceV{t: types.Typ[types.UnsafePointer], v: &OpaqueV{kind: "error", id: e.objSeq, data: args[0]}}, true
 	case "errors.Is":
 		return e.valueEq(args[0], args[1]), true
+	case "math/bits.Len", "math/bits.Len8", "math/bits.Len16", "math/bits.Len32", "math/bits.Len64":
+		// minimum number of bits to represent x: position of the highest set bit + 1
+		x := args[0].(*Term)
+		r := e.c64(0)
+		for i := 0; i < x.w; i++ {
+			r = e.st.Ite(e.st.Eq(e.st.Extract(i, i, x), e.st.Const(1, 1)), e.c64(int64(i+1)), r)
+		}
+		return r, true
+	case "math/bits.TrailingZeros", "math/bits.TrailingZeros8", "math/bits.TrailingZeros16", "math/bits.TrailingZeros32", "math/bits.TrailingZeros64":
+		x := args[0].(*Term)
+		r := e.c64(int64(x.w))
+		for i := x.w - 1; i >= 0; i-- {
+			r = e.st.Ite(e.st.Eq(e.st.Extract(i, i, x), e.st.Const(1, 1)), e.c64(int64(i)), r)
+		}
+		return r, true
+	case "math/bits.LeadingZeros", "math/bits.LeadingZeros8", "math/bits.LeadingZeros16", "math/bits.LeadingZeros32", "math/bits.LeadingZeros64":
+		x := args[0].(*Term)
+		r := e.c64(int64(x.w))
+		for i := 0; i < x.w; i++ {
+			r = e.st.Ite(e.st.Eq(e.st.Extract(i, i, x), e.st.Const(1, 1)), e.c64(int64(x.w-1-i)), r)
+		}
+		return r, true
+	case "math/bits.RotateLeft8", "math/bits.RotateLeft16", "math/bits.RotateLeft32", "math/bits.RotateLeft64":
+		x := args[0].(*Term)
+		k := args[1].(*Term) // int
+		w := x.w
+		kk := e.st.Bin(OpAnd, e.st.Extract(w-1, 0, e.st.Zext(64, k)), e.st.Const(w, uint64(w-1)))
+		if k.w < w {
+			kk = e.st.Bin(OpAnd, e.st.Zext(w, k), e.st.Const(w, uint64(w-1)))
+		}
+		inv := e.st.Bin(OpAnd, e.st.Bin(OpSub, e.st.Const(w, uint64(w)), kk), e.st.Const(w, uint64(w-1)))
+		return e.st.Bin(OpOr, e.st.Bin(OpShl, x, kk), e.st.Bin(OpLshr, x, inv)), true
 	case "errors.New":
 		e.objSeq++
 		return &IfaceV{t: types.Typ[types.UnsafePointer], v: &OpaqueV{kind: "error", id: e.objSeq, data: args[0]}}, true
@@ -639,6 +671,45 @@ func (e *Exec) stub(fn *ssa.Function, full string, args []Value) (Value, bool) {
 		e.store(p, args[1])
 		return nil, true
 	}
+	// typed atomics: (*atomic.Bool|Int32|Int64|Uint32|Uint64|Uintptr).Load/Store/Add/Swap/CompareAndSwap
+	if strings.HasPrefix(full, "(*sync/atomic.") {
+		if r, ok := e.typedAtomic(fn, full, args); ok {
+			return r, true
+		}
+	}
+	if full == "context.AfterFunc" {
+		return e.afterFunc(args), true
+	}
+	if strings.HasPrefix(full, "(*sync.Map).") {
+		return e.syncMap(fn, full[len("(*sync.Map)."):], args), true
+	}
+	if full == "(*sync.Once).Do" {
+		p := args[0].(*PtrV)
+		k := "once:" + locKey(p)
+		if e.onceDone[k] {
+			return nil, true
+		}
+		e.onceDone[k] = true
+		e.invoke(args[1].(*FuncV), nil)
+		return nil, true
+	}
+	if strings.HasPrefix(full, "(*sync.WaitGroup).") {
+		p := args[0].(*PtrV)
+		k := "wg:" + locKey(p)
+		switch full[len("(*sync.WaitGroup)."):] {
+		case "Add":
+			e.wgCount[k] += int(e.constInt(args[1]))
+			e.ctxRelKey(k, true)
+		case "Done":
+			e.wgCount[k]--
+			e.ctxRelKey(k, true)
+			e.wake()
+		case "Wait":
+			e.block(func() bool { return e.wgCount[k] <= 0 }, "WaitGroup.Wait")
+			e.ctxRelKey(k, false)
+		}
+		return nil, true
+	}
 	if strings.HasPrefix(full, "(*sync.Mutex).") || strings.HasPrefix(full, "(*sync.RWMutex).") {
 		// lock = acquire, unlock = release on the mutex object
 		if p, ok := args[0].(*PtrV); ok && p.obj != nil && len(e.threads) > 0 {
@@ -669,6 +740,25 @@ func (e *Exec) harnessFunc(name string) *ssa.Function {
 // extCall handles FuncV values that are not SSA functions.
 func (e *Exec) extCall(fv *FuncV, args []Value) Value {
 	switch {
+	case fv.ext == "afterfunc":
+		d := fv.data.([]interface{})
+		co, f, st := d[0].(*OpaqueV), d[1].(*FuncV), d[2].(*afterState)
+		e.block(func() bool { return e.ctxCause(co.id) != 0 || st.stopped }, "AfterFunc waiting for its context")
+		if st.stopped {
+			return nil
+		}
+		st.started = true
+		e.acquire(e.ctxRel[e.ctxCause(co.id)])
+		e.invoke(f, nil)
+		return nil
+	case fv.ext == "afterfunc-stop":
+		st := fv.data.(*afterState)
+		if st.started || st.stopped {
+			return e.st.False
+		}
+		st.stopped = true
+		e.wake()
+		return e.st.True
 	case fv.ext == "cancel":
 		c := fv.data.(*OpaqueV)
 		e.events = append(e.events, Event{Kind: "cancel", Args: []Value{c}})
@@ -1041,4 +1131,265 @@ func (e *Exec) timeType() types.Type {
 	}
 	e.unsupported("package time not loaded (ctx.Deadline)")
 	return nil
+}
+
+// libStub: the few library internals that are not plain Go.
+func (e *Exec) libStub(fn *ssa.Function, args []Value) (Value, bool) {
+	name := fn.Name()
+	if o := fn.Origin(); o != nil {
+		name = o.Name()
+	}
+	switch name {
+	case "overlaps":
+		// slices.overlaps(a, b): do the two slices share memory?
+		a, ok1 := args[0].(*SliceV)
+		b, ok2 := args[1].(*SliceV)
+		if !ok1 || !ok2 {
+			e.unsupported("slices.overlaps operands")
+		}
+		if a.obj == nil || b.obj == nil || a.obj != b.obj || !samePath(a.path, b.path) {
+			return e.st.False, true
+		}
+		if a.len.op == OpConst && a.len.val == 0 || b.len.op == OpConst && b.len.val == 0 {
+			return e.st.False, true
+		}
+		// a.off <= b.off+b.len-1 && b.off <= a.off+a.len-1
+		one := e.c64(1)
+		r := e.st.And(e.st.Cmp(OpSle, a.off, e.st.Bin(OpSub, e.st.Bin(OpAdd, b.off, b.len), one)),
+			e.st.Cmp(OpSle, b.off, e.st.Bin(OpSub, e.st.Bin(OpAdd, a.off, a.len), one)))
+		return r, true
+	}
+	return nil, false
+}
+
+// ctxRelKey: release (rel=true) or acquire on a named synchronisation object.
+func (e *Exec) ctxRelKey(k string, rel bool) {
+	if len(e.threads) == 0 {
+		return
+	}
+	ls := e.locs[k]
+	if ls == nil {
+		ls = &locState{}
+		e.locs[k] = ls
+	}
+	if rel {
+		ls.rel = e.release(ls.rel)
+	} else {
+		e.acquire(ls.rel)
+	}
+}
+
+// typedAtomic: the value lives in the field "v" of the atomic.* struct.
+func (e *Exec) typedAtomic(fn *ssa.Function, full string, args []Value) (Value, bool) {
+	i := strings.Index(full, ").")
+	method := full[i+2:]
+	p, ok := args[0].(*PtrV)
+	if !ok || p.obj == nil {
+		return nil, false
+	}
+	st, ok := fn.Signature.Recv().Type().(*types.Pointer).Elem().Underlying().(*types.Struct)
+	if !ok {
+		return nil, false
+	}
+	fi := -1
+	for k := 0; k < st.NumFields(); k++ {
+		if st.Field(k).Name() == "v" {
+			fi = k
+		}
+	}
+	if fi < 0 {
+		return nil, false
+	}
+	fp := &PtrV{obj: p.obj, path: extendPath(p.path, pathElem{i: fi})}
+	isBool := strings.Contains(full, "atomic.Bool)")
+	cur := func() *Term {
+		v := e.load(fp).(*Term)
+		if isBool { // stored as uint32
+			return e.st.Not(e.st.Eq(v, e.st.Const(v.w, 0)))
+		}
+		return v
+	}
+	put := func(t *Term) {
+		if isBool {
+			w, _, _ := intWidth(st.Field(fi).Type())
+			t = e.st.Ite(t, e.st.Const(w, 1), e.st.Const(w, 0))
+		}
+		e.store(fp, t)
+	}
+	sync := func(write bool) {
+		if len(e.threads) > 0 {
+			e.access(fp, write, true, "atomic."+method)
+			ls := e.locs[locKey(fp)]
+			if write {
+				ls.rel = e.release(ls.rel)
+			} else {
+				e.acquire(ls.rel)
+			}
+		}
+	}
+	switch method {
+	case "Load":
+		e.events = append(e.events, Event{Kind: "atomic.Load"})
+		sync(false)
+		return cur(), true
+	case "Store":
+		e.events = append(e.events, Event{Kind: "atomic.Store"})
+		sync(true)
+		put(args[1].(*Term))
+		return nil, true
+	case "Swap":
+		sync(false)
+		old := cur()
+		sync(true)
+		put(args[1].(*Term))
+		return old, true
+	case "Add":
+		sync(false)
+		n := e.st.Bin(OpAdd, cur(), args[1].(*Term))
+		sync(true)
+		put(n)
+		return n, true
+	case "CompareAndSwap":
+		sync(false)
+		c := cur()
+		var eq *Term
+		if isBool {
+			eq = e.st.Eq(c, args[1].(*Term))
+		} else {
+			eq = e.st.Eq(c, args[1].(*Term))
+		}
+		if e.Branch(eq) {
+			sync(true)
+			put(args[2].(*Term))
+			return e.st.True, true
+		}
+		return e.st.False, true
+	}
+	return nil, false
+}
+
+// afterFunc: context.AfterFunc(ctx, f) — f runs in its own goroutine once ctx
+// is done, unless stop() was called before.
+func (e *Exec) afterFunc(args []Value) Value {
+	ci := args[0].(*IfaceV)
+	co, ok := ci.v.(*OpaqueV)
+	if !ok {
+		e.unsupported("context.AfterFunc on this context")
+	}
+	f := args[1].(*FuncV)
+	state := &afterState{}
+	t := &Thread{id: len(e.threads) + 1, fn: &FuncV{ext: "afterfunc", data: []interface{}{co, f, state}}}
+	e.threads = append(e.threads, t)
+	e.events = append(e.events, Event{Kind: "go"})
+	e.forkClock()
+	e.wake()
+	return &FuncV{ext: "afterfunc-stop", data: state}
+}
+
+type afterState struct {
+	stopped bool
+	started bool
+}
+
+// syncMap: presence model of sync.Map keyed by integer keys; values are kept
+// per syntactic key term.
+func (e *Exec) syncMap(fn *ssa.Function, method string, args []Value) Value {
+	p := args[0].(*PtrV)
+	k := "syncmap:" + locKey(p)
+	sm := e.syncMaps[k]
+	if sm == nil {
+		sm = &syncMapState{present: e.st.ConstArr(ArrSort(64, 0), 0), vals: map[int]Value{}}
+		e.syncMaps[k] = sm
+	}
+	if strings.HasPrefix(p.obj.name, "global:") {
+		if method != "Load" && method != "Range" {
+			e.globalW[p.obj.name[7:]] = true
+		}
+	}
+	key := func(v Value) *Term {
+		iv, ok := v.(*IfaceV)
+		if !ok {
+			e.unsupported("sync.Map key")
+		}
+		if sv, ok := iv.v.(*StructV); ok {
+			// a small struct of scalars: pack the fields into one 64-bit key
+			var packed *Term
+			w := 0
+			for _, f := range sv.f {
+				ft, ok := f.(*Term)
+				if !ok {
+					e.unsupported("sync.Map key: struct field kind")
+				}
+				if ft.w == 0 {
+					ft = e.st.Ite(ft, e.st.Const(8, 1), e.st.Const(8, 0))
+				}
+				w += ft.w
+				if packed == nil {
+					packed = ft
+				} else {
+					packed = e.st.Concat(packed, ft)
+				}
+			}
+			if packed == nil || w > 64 {
+				e.unsupported("sync.Map key: struct too wide")
+			}
+			return e.st.Zext(64, packed)
+		}
+		t, ok := iv.v.(*Term)
+		if !ok || t.w == 0 {
+			e.unsupported("sync.Map key kind")
+		}
+		_, signed, _ := intWidth(iv.t)
+		if signed {
+			return e.st.Sext(64, t)
+		}
+		return e.st.Zext(64, t)
+	}
+	e.ctxRelKey(k, false)
+	defer e.ctxRelKey(k, true)
+	switch method {
+	case "Load":
+		kt := key(args[1])
+		ok := e.st.Select(sm.present, kt)
+		v, found := sm.vals[kt.id]
+		if !found {
+			v = &IfaceV{}
+		}
+		return TupleV{v, ok}
+	case "Store":
+		kt := key(args[1])
+		sm.present = e.st.StoreArr(sm.present, kt, e.st.True)
+		sm.vals[kt.id] = args[2]
+		return nil
+	case "LoadOrStore":
+		kt := key(args[1])
+		was := e.st.Select(sm.present, kt)
+		sm.present = e.st.StoreArr(sm.present, kt, e.st.True)
+		old, found := sm.vals[kt.id]
+		if !found {
+			old = args[2]
+			sm.vals[kt.id] = args[2]
+		}
+		return TupleV{old, was}
+	case "Delete":
+		kt := key(args[1])
+		sm.present = e.st.StoreArr(sm.present, kt, e.st.False)
+		return nil
+	case "LoadAndDelete":
+		kt := key(args[1])
+		was := e.st.Select(sm.present, kt)
+		sm.present = e.st.StoreArr(sm.present, kt, e.st.False)
+		v, found := sm.vals[kt.id]
+		if !found {
+			v = &IfaceV{}
+		}
+		return TupleV{v, was}
+	}
+	e.unsupported("sync.Map." + method)
+	return nil
+}
+
+type syncMapState struct {
+	present *Term
+	vals    map[int]Value
 }
